@@ -201,8 +201,11 @@ def signatures(fn, nested: bool) -> list:
             except Exception:  # noqa: BLE001
                 txt = ast.dump(cp)
             sig = hashlib.sha1(" ".join(txt.split()).encode()).hexdigest()[:12]
-        out.append((name, sig, _usage_sig(fn, name, names)))
-    return out
+        out.append((name, sig, None))
+    # the usage signature only matters where the binding signature does not single out a local
+    from collections import Counter
+    dup = {s_ for s_, c in Counter(x[1] for x in out).items() if c > 1}
+    return [(n, s_, _usage_sig(fn, n, names) if s_ in dup else None) for n, s_, _ in out]
 
 
 def _usage_sig(fn, name, names) -> str:
@@ -423,6 +426,7 @@ def translate_module(tree: ast.Module, modname: str, stats: Optional[dict] = Non
     ref = reference().get(modname)
     if not ref:
         return tree
+    dumps = (reference().get("__dumps__") or {}).get(modname) or {}
     # outermost functions first: a nested def renamed by its parent is then looked up under its reference name
     done = set()
     progress = True
@@ -436,6 +440,8 @@ def translate_module(tree: ast.Module, modname: str, stats: Optional[dict] = Non
             r = ref.get(q)
             if r is None:
                 continue
+            if dumps.get(q) == fn_digest(fn):
+                continue  # the function is the reference's, statement for statement
             cur = signatures(fn, nested)
             m = align(cur, [tuple(x) for x in r])
             mapping, k = {}, 0
@@ -455,6 +461,10 @@ def translate_module(tree: ast.Module, modname: str, stats: Optional[dict] = Non
                     stats[f"{modname}:{q}"] = {o: n for o, n in mapping.items() if o != n}
                 break  # qualnames below this function may have changed: enumerate again
     return tree
+
+
+def fn_digest(fn) -> str:
+    return hashlib.sha1(ast.dump(fn).encode()).hexdigest()[:12]
 
 
 def is_new_name(name: str) -> bool:
@@ -477,6 +487,7 @@ def make_reference(modules: dict) -> dict:
         entry = {}
         for q, fn, nested in functions_with_qualnames(tree):
             entry[q] = [list(x) for x in signatures(fn, nested)]  # also functions without locals: a later temporary is then known to be new
+            out.setdefault("__dumps__", {}).setdefault(modname, {})[q] = fn_digest(fn)
             c = comparisons_of(fn)
             if c:
                 out.setdefault("__cmps__", {}).setdefault(modname, {})[q] = c
@@ -561,6 +572,11 @@ def orient_comparisons(tree: ast.Module, modname: str) -> None:
     for q, fn, nested in functions_with_qualnames(tree):
         known = set(ref.get(q) or ())
         if not known:
+            continue
+        for n in ast.walk(fn):
+            if isinstance(n, ast.Compare):
+                break
+        else:
             continue
         for n in ast.walk(fn):
             if isinstance(n, ast.Compare):
